@@ -49,6 +49,8 @@ func (g *oblGroup) status() string {
 		case "unsat", "skipped":
 		case "sat":
 			return "sat"
+		case "error":
+			return "error"
 		case "disagree":
 			return "disagree"
 		default:
@@ -241,6 +243,16 @@ func runProperty(eng *Engine, verifDir, prop, tier string, updateLedger, verbose
 				samples = append(samples, map[string]interface{}{"obligation": n, "at": o.PosStr, "clause": o.Clause, "paths": len(g.Instances), "smt_bytes": o.SMTLen, "solver": o.Solver})
 			}
 			continue
+		}
+		if st == "error" {
+			msg := ""
+			for _, o := range g.Instances {
+				if o.Status == "error" {
+					msg = truncate(o.Model, 300)
+				}
+			}
+			fmt.Printf("ENGINE-FAULT solver rejected the query for %s: %s\n", n, strings.ReplaceAll(msg, "\n", " "))
+			return 2
 		}
 		if st == "disagree" {
 			fmt.Printf("ENGINE-FAULT solvers disagree on %s\n", n)
